@@ -128,6 +128,22 @@ def cycles(dobj, n=3):
             probs.append(f"written document does not load (cycle {k + 1}): {type(e).__name__}: {e}"[:200])
             break
         hist.append(orders(cur))
+    # write_xml (file on disk, pretty-printed with declaration) must be as deterministic and stable as to_xml_tree
+    try:
+        import pathlib
+        import tempfile
+        with tempfile.TemporaryDirectory(prefix="c15-") as td:
+            p1, p2 = pathlib.Path(td) / "a.xml", pathlib.Path(td) / "b.xml"
+            dobj.write_xml(p1)
+            dobj.write_xml(p2)
+            if p1.read_bytes() != p2.read_bytes():
+                probs.append("two write_xml outputs of the same definition differ")
+            re1 = XtcePacketDefinition.from_xtce(str(p1), xtce_ns_prefix=dobj.xtce_ns_prefix, root_container_name=dobj.root_container_name)
+            re1.date = DATE
+            if len(docs) > 1 and write(re1) != docs[1]:
+                probs.append("the document written by write_xml loads to a definition that serializes differently from G2")
+    except Exception as e:  # noqa: BLE001
+        probs.append(f"write_xml / reload failed: {type(e).__name__}: {e}"[:200])
     for k in range(2, len(docs)):
         if docs[k] != docs[1]:
             probs.append(f"G{k + 1} differs from G2 (documents after the first cycle must be byte-identical)")
